@@ -92,6 +92,7 @@ class LiveCtx(Ctx):
         self.tvars = {}
         self.class_decl = {}
         self.handler_desc = {}   # id(live handler) -> descriptor
+        self.shared_fns = {}     # share key -> the one function object
         self.used = {}           # class key -> live class (everything describe() met)
 
     def tvar(self, name, bound=None, cons=()):
@@ -123,12 +124,17 @@ class LiveCtx(Ctx):
             d = {self.head_type(head): self.custom(cid) for head, cid in h['entries']}
             self.handler_desc[id(d)] = h
             return d
+        if h.get('share') and h['share'] in self.shared_fns:
+            # ONE function object used in several places (a call's custom= and a class's custom=)
+            return self.shared_fns[h['share']]
         table = {self.head_type(head): self.custom(cid) for head, cid in h['entries']}
         def fn(ty, args, *, handlers):
             if ty in table:
                 return table[ty]
             return NotImplemented
         self.handler_desc[id(fn)] = h
+        if h.get('share'):
+            self.shared_fns[h['share']] = fn
         return fn
 
     def head_type(self, head):
@@ -589,6 +595,18 @@ def run(scen, ctx):
     if scen.get('_create_err'):
         return {'classCreateError': scen['_create_err']}
     if op in ('from_data', 'try_collect', 'into_data', 'roundtrip', 'render', 'build', 'convert2', 'io'):
+        # earlier conversions in the same interpreter (same class objects, possibly the same handler objects used in
+        # another role): the model is a function of (type, handlers, value) only, so these must not matter
+        for pre in scen.get('pre', []):
+            try:
+                pane.from_data(ctx.dec(pre['val']), ctx.ty(pre['ty']), custom=ctx.handlers((pre.get('handlers') or {}).get('globals')))
+            except BaseException:  # noqa
+                pass
+            try:
+                pane.into_data(pane.from_data(ctx.dec(pre['val']), ctx.ty(pre['ty']), custom=ctx.handlers((pre.get('handlers') or {}).get('globals'))),
+                               ctx.ty(pre['ty']), custom=ctx.handlers((pre.get('handlers') or {}).get('globals')))
+            except BaseException:  # noqa
+                pass
         T, conv, custom = build(ctx, scen)
         if conv is None:
             return custom
@@ -676,7 +694,7 @@ def run(scen, ctx):
         return out
     if op == 'process':
         return None   # handled by run_process (needs its own class creation)
-    if op in ('construct', 'unchecked', 'fromdict', 'dictview', 'copy', 'replace', 'setattr', 'delattr'):
+    if op in ('construct', 'unchecked', 'fromdict', 'dictview', 'copy', 'replace', 'setattr', 'delattr', 'copyset'):
         return run_instance_op(scen, ctx)
     if op in ('cmp', 'repr'):
         return run_cmp(scen, ctx)
@@ -783,9 +801,14 @@ def c16_laws(pool):
     for a in pool:
         if safe(op.eq, a, a) is not True:
             return f'{a!r} != itself'
+    def origin(c):
+        # the class a subscripted class `G[int]` was made from; an ordinary subclass is its own class
+        return c.__bases__[0] if '__pane_boundvars__' in c.__dict__ else c
     for a in pool:
         for b in pool:
             e = safe(op.eq, a, b)
+            if e and origin(type(a)) is not origin(type(b)):
+                return f'{a!r} of {type(a).__name__} == {b!r} of another class {type(b).__name__} (bases {type(a).__bases__} / {type(b).__bases__})'
             if e != safe(op.eq, b, a):
                 return f'== is not symmetric on {a!r}, {b!r}'
             hash_in_compare = all(f.compare or not f.hash for f in type(a).__pane_info__.fields)   # the stdlib's own proviso
@@ -884,6 +907,27 @@ def run_instance_op(scen, ctx):
             return {'ok': ctx.enc(obj.dict(set_only=scen.get('set_only', False), rename=scen.get('rename')))}
         except BaseException as e:  # noqa
             return {'raises': map_exc(e)}
+    if op == 'copyset':
+        import copy as _copy
+        how = scen['how']
+        caller_set = set(obj.__pane_set__)
+        try:
+            if how == 'fromdict':
+                c = cls.from_dict_unchecked({f.name: getattr(obj, f.name) for f in cls.__pane_info__.fields}, set_fields=caller_set)
+            elif how == 'replace':
+                c = obj.__replace__()
+            else:
+                c = (_copy.deepcopy if how == 'deepcopy' else _copy.copy)(obj)
+        except ConvertError as e:
+            return {'convertError': enc_tree(ctx, e.tree)}
+        except BaseException as e:  # noqa
+            return {'raises': map_exc(e), 'msg': str(e)}
+        try:
+            setattr(obj if scen['mutate'] == 'orig' else c, scen['name'], ctx.dec(scen['val']))
+            st = 'ok'
+        except BaseException as e:  # noqa
+            st = map_exc(e)
+        return {'set': st, 'orig': ctx.enc(obj), 'copy': ctx.enc(c), 'caller_set': sorted(caller_set)}
     if op == 'copy':
         import copy as _copy
         return result_of(ctx, lambda: (_copy.deepcopy if scen.get('deep') else _copy.copy)(obj))
@@ -1269,33 +1313,76 @@ def _fn_handler(ty, args, *, handlers):
 
 _FN_CONV = TagConv('tagint:2')
 _DICT_CONV = TagConv('tagint:3')
+
+
+class _Unsupported:
+    pass
+
+
+def _mk_pane(bad=False):
+    ns = {'__annotations__': {'a': int, 'b': (_Unsupported if bad else float), 'c': str}}
+    return type('HistK', (pane.PaneBase,), ns)
+
+
+def _mk_pane_safe(bad):
+    # class creation itself does not build converters; a class with an unsupported field type is created fine
+    return _mk_pane(bad)
+
+
 TYPE_POOL = [lambda: list[int], lambda: dict[str, float], lambda: list[str], lambda: tuple[int, str], lambda: (int, str),
              lambda: {'a': int}, lambda: set[int], lambda: dict[str, list[int]], lambda: int | None, lambda: list[float],
-             lambda: dict[str, int], lambda: tuple[int, ...]]
+             lambda: dict[str, int], lambda: tuple[int, ...], lambda: _mk_pane_safe(False), lambda: _mk_pane_safe(True), lambda: int]
+SAMPLES = [[1, 2], {'k': 1.5}, ['s'], [3, 's'], [4, 't'], {'a': 5}, [6], {'k': [7]}, 8, [1.5], {'k': 9}, [10, 11],
+           {'a': 1, 'b': 2.5, 'c': 'x'}, {'a': 1, 'b': 2.5, 'c': 'x'}, 12]
+_REG = {}
 
 
 def _handlers(hk):
-    return None if hk == 0 else _fn_handler if hk == 1 else {int: _DICT_CONV}
+    return None if hk == 0 else _fn_handler if hk == 1 else {int: _DICT_CONV} if hk == 2 else _REG
 
 
-def _sig(conv):
+def _out(f):
     try:
-        return (type(conv).__name__, conv.expected(True), conv.expected(False))
+        r = f()
+        return ('ok', repr(r)) if not hasattr(r, '__pane_info__') else ('ok', repr(sorted(r.dict().items(), key=str)))
+    except BaseException as e:  # noqa
+        return ('raise', type(e).__name__)
+
+
+def _sig(conv, d=None):
+    try:
+        base = (type(conv).__name__, conv.expected(True), conv.expected(False))
     except Exception as e:  # noqa
         return ('?', repr(e))
+    if d is None:
+        return base
+    x = _out(lambda: conv.convert(SAMPLES[d]))
+    y = _out(lambda: conv.into_data(conv.convert(SAMPLES[d])))
+    return base + (x, y)
 
 
 def run_history(scen):
-    """replay an abstract history with REAL type objects; returns (impl observations, model ops carrying the real ids)"""
+    """replay an abstract history with REAL type objects; returns (impl observations, model ops carrying the real ids).
+    A conversion outcome is the converter's kind + description AND what it does to a sample value (parse, serialise)."""
     import threading
     from pane.convert import make_converter, ConverterHandlers
+    _REG.clear()
+    _REG[int] = TagConv('tagint:3')
+    regver = [0]
     fresh = {}
-    for d in range(len(TYPE_POOL)):
-        for hk in (0, 1, 2):
+
+    def fresh_sig(d, hk):
+        key = (d, hk, regver[0] if hk == 3 else 0)
+        if key not in fresh:
             try:
-                fresh[(d, hk)] = _sig(make_converter.inner_f(TYPE_POOL[d](), ConverterHandlers.make(_handlers(hk))))
+                hs = _handlers(hk)
+                if hk == 3:
+                    hs = dict(hs)      # same contents, an object never seen before
+                fresh[key] = _sig(make_converter.inner_f(TYPE_POOL[d](), ConverterHandlers.make(hs)), d)
             except Exception as e:  # noqa
-                fresh[(d, hk)] = ('build-error', type(e).__name__)
+                fresh[key] = ('build-error', type(e).__name__)
+        return fresh[key]
+
     slots, desc = {}, {}
     ops, obs = [], []
     uniq = [1000]
@@ -1320,26 +1407,30 @@ def run_history(scen):
             # same-size garbage to provoke address reuse
             junk = [TYPE_POOL[o[1] % len(TYPE_POOL)]() for _ in range(o[2])]
             del junk
+        elif k == 'mutreg':
+            # the long-lived handlers mapping changes between calls: handlers are compared by what they contain
+            _REG[int] = TagConv('tagint:%d' % o[1])
+            regver[0] += 1
         elif k == 'call':
             _, s, hk = o
             if s not in slots:
                 continue
             hid = hk
-            if hk == 2:
+            if hk >= 2:
                 uniq[0] += 1
                 hid = uniq[0]        # a mapping-form handler is wrapped in a fresh closure per call: never equal to an earlier one
             try:
                 conv = make_converter(slots[s], ConverterHandlers.make(_handlers(hk)))
-                sg = _sig(conv)
+                sg = _sig(conv, desc[s])
             except Exception as e:  # noqa
                 sg = ('build-error', type(e).__name__)
-            want = fresh[(desc[s], hk)]
+            want = fresh_sig(desc[s], hk)
             if sg == want:
                 obs.append([desc[s], hid])
             else:
-                match = [d for (d, h2), v in fresh.items() if v == sg and h2 == hk]
+                match = [d for (d, h2, _), v in fresh.items() if v == sg and h2 == hk]
                 obs.append([match[0] if match else -1, hid])
-                notes.append(f'call on slot {s} (type #{desc[s]}, handlers #{hk}) returned a converter with signature {sg!r}; a fresh build gives {want!r}')
+                notes.append(f'call on slot {s} (type #{desc[s]}, handlers #{hk}) behaves as {sg!r}; a converter freshly built for the same type and handlers as {want!r}')
             ops.append({'k': 'call', 's': s, 'h': hid})
     # concurrent use: several threads look up the live slots at once; every result must be the fresh one
     nthreads = scen.get('threads', 0)
@@ -1349,6 +1440,7 @@ def run_history(scen):
         _sys.setswitchinterval(1e-6)
         res = []
         lock = threading.Lock()
+        want_of = {(s, hk): fresh_sig(desc[s], hk) for s in slots for hk in (0, 1)}
         def work(seed):
             import random as _r
             rr = _r.Random(seed)
@@ -1356,10 +1448,10 @@ def run_history(scen):
                 s = rr.choice(list(slots))
                 hk = rr.choice([0, 1])
                 try:
-                    sg = _sig(make_converter(slots[s], ConverterHandlers.make(_handlers(hk))))
+                    sg = _sig(make_converter(slots[s], ConverterHandlers.make(_handlers(hk))), desc[s])
                 except Exception as e:  # noqa
-                    sg = ('error', type(e).__name__)
-                if sg != fresh[(desc[s], hk)]:
+                    sg = ('build-error', type(e).__name__)
+                if sg != want_of[(s, hk)]:
                     with lock:
                         res.append((s, hk, sg))
         ths = [threading.Thread(target=work, args=(i,)) for i in range(nthreads)]
@@ -1369,7 +1461,7 @@ def run_history(scen):
             th.join()
         _sys.setswitchinterval(old)
         for s, hk, sg in res[:3]:
-            notes.append(f'thread: slot {s} handlers #{hk} returned {sg!r}, fresh is {fresh[(desc[s], hk)]!r}')
+            notes.append(f'thread: slot {s} handlers #{hk} returned {sg!r}, fresh is {want_of[(s, hk)]!r}')
     scen['ops'] = ops
     scen['_oracle'] = {'c10': notes[0] if notes else None}
     return {'obs': obs}
@@ -1457,6 +1549,15 @@ def run_io(scen, ctx, T, conv, val):
                         write(x, f, ty=T, **opts)
                         stream_open = not f.closed
                         f.seek(0)
+                        x2 = result_of(ctx, lambda: read(f, T))
+                        stream_open = stream_open and not f.closed
+                elif sink == 'textfile2':
+                    # the caller's own text streams (any encoding they chose), one for writing and another for reading
+                    p = os.path.join(tmp, 'doc.' + fmt)
+                    with builtins.open(p, 'w', encoding=scen.get('enc', 'utf-8')) as f:
+                        write(x, f, ty=T, **opts)
+                        stream_open = not f.closed
+                    with builtins.open(p, 'r', encoding=scen.get('enc', 'utf-8')) as f:
                         x2 = result_of(ctx, lambda: read(f, T))
                         stream_open = stream_open and not f.closed
                 elif sink == 'method':
